@@ -346,7 +346,7 @@ def alias_accepted():
 
 
 # ---- the property's rules, written from the statement ---------------------------------
-def rule_run(S, batches, subscribed):
+def rule_run(S, batches, subscribed, server=False):
     """Reference run: which announcements must / must not be delivered.  Returns list of (canonical key string, canon json)."""
     store = {}
     out = []
@@ -365,7 +365,9 @@ def rule_run(S, batches, subscribed):
             if raw is None or S.sigs.get((c[1], m)) != raw:
                 continue                       # not signed by the claimed key over exactly these bytes
             a = analyse_msg(m)
-            if a is None or a == "malformed" or not a["desc_ok"] or a["service"] not in subscribed:
+            if a is None or a == "malformed":
+                continue
+            if not server and (not a["desc_ok"] or a["service"] not in subscribed):
                 continue
             idx = (a["service"], c[1])
             old = store.get(idx)
@@ -526,6 +528,20 @@ def one_stream(ctx, i, alias_ok, cache, terms, info):
                  "negb (verdict_eqb v PDuplicate) && negb (verdict_eqb v PTooOld) && negb (verdict_eqb v PNoValidSeq)) (List.concat (snd r)))) =? %d))"
                  % (T.boolean(alias_ok), T.lst(sym.tbl), T.lst(bts), stq2, sraised))
     info.append(("server", i, cinfo, {"stored": sstored, "raised": sraised}))
+    _, swant = rule_run(S, batches, None, server=True)
+    sgot = dict(((svc, canon_of.get(ks)), c) for svc, ks, c in sstored)
+    for idx2, a in sorted(swant.items()):
+        if idx2 in sgot and sgot[idx2] != a["canon"]:
+            got_seq = json.loads(sgot[idx2]).get("seqnum")
+            ctx.oracle_fail("introducer-server-keeps-wrong-announcement",
+                            "IntroducerService holds seqnum %r for (%s, key %d) where the rules (replace only by a strictly greater integer seqnum) "
+                            "leave seqnum %r" % (got_seq, idx2[0], idx2[1], a["ann"].get("seqnum")),
+                            case=cinfo, expected=a["canon"], observed=sgot[idx2])
+            break
+        if idx2 not in sgot:
+            ctx.oracle_fail("introducer-server-lost-announcement", "IntroducerService holds nothing for (%s, key %d)" % idx2, case=cinfo,
+                            expected=a["canon"], observed=None)
+            break
     for svc, ks, c in sstored:
         k = canon_of.get(ks)
         ck = classify_key(ks)
